@@ -15,3 +15,7 @@ def check(A):
         S.get_request_rules(A, fl, 'C06')
         R.upgrade_configured_rule(A, fl, 'C06')
         R.upgrade_refusal_harmless_rule(A, fl, 'C06')
+        R.admission_rules(A, fl, 'C06', parts=('sinks',))
+    from . import clirules as C
+    for cf in C.CFLAVOURS:
+        C.connect_websocket_rules(A, cf, 'C06', probe_rule='C06')
